@@ -117,6 +117,21 @@ def enum_cleaning(seed):
             pkgs = [_Pkg(c, f, r) for c, (f, r) in sorted(tree.items())]
             inst = [_Pkg(c, f, ()) for c, f in sorted(installed.items())]
             repo = _Repo(pkgs)
+            # every third universe: no -r repository; the domain's source repositories are what a domain has -- the tree behind the
+            # visibility filter (package.mask, keywords), here hiding one or two of the packages.  They are still packages in the repositories.
+            masked, source_repos = [], []
+            if s % 3 == 0:
+                from pkgcore.repository import filtered
+                from pkgcore.repository.util import SimpleTree
+                from pkgcore.restrictions import packages as _packages
+                masked = sorted(rnd.sample(sorted(tree), rnd.choice((1, 2))))
+                by_cpv = {p.cpvstr: p for p in pkgs}
+                shape = {}
+                for p in pkgs:
+                    shape.setdefault(p.category, {}).setdefault(p.package, []).append(p.fullver)
+                base = SimpleTree(shape, pkg_klass=lambda cat, pn, ver: by_cpv[f"{cat}/{pn}-{ver}"])
+                source_repos = [filtered.tree(base, _packages.OrRestriction(*[by_cpv[c].versioned_atom for c in masked], negate=True), True)]
+                repo = None
             # exclusions as the command line gives them: -x patterns, an -X file (last line with or without a line end is the user's business:
             # here without, so that no empty pattern arises), or both; the namespace is built by pclean's own parse hooks
             excl_forms = (None, ([names[1]], None), (None, names[1]), (None, names[2] + "\n" + names[1]), ([names[2]], names[1]))
@@ -133,12 +148,12 @@ def enum_cleaning(seed):
                     filters.append(lambda x, size=size: os.stat(x).st_size < size)
                 excl_patterns = [] if excl_form is None else list(excl_form[0] or []) + (excl_form[1].split("\n") if excl_form[1] is not None else [])
                 excl = ", ".join(excl_patterns) or None
-                ns = types.SimpleNamespace(domain=types.SimpleNamespace(distdir=distdir, all_installed_repos=inst, source_repos=[], all_source_repos_raw=()), repo=repo,
+                ns = types.SimpleNamespace(domain=types.SimpleNamespace(distdir=distdir, all_installed_repos=inst, source_repos=source_repos, all_source_repos_raw=()), repo=repo,
                                            restrict=[], targets=[target] if target else [], pkgsets=([list(x) for x in set_form] if set_form else None),
                                            config=types.SimpleNamespace(pkgset=set_atoms), excludes=list(excl_form[0]) if excl_form and excl_form[0] else None,
                                            exclude_file=io.StringIO(excl_form[1]) if excl_form and excl_form[1] is not None else None,
                                            exclude_installed=opt_i, exclude_exists=opt_e, exclude_fetch_restricted=opt_f, file_filters=filters)
-                model = {"seed": s, "tree": {k: [list(v[0]), list(v[1])] for k, v in tree.items()}, "installed": {k: list(v) for k, v in installed.items()}, "distdir": sorted(present),
+                model = {"seed": s, "hidden_by_the_visibility_filter": masked, "tree": {k: [list(v[0]), list(v[1])] for k, v in tree.items()}, "installed": {k: list(v) for k, v in installed.items()}, "distdir": sorted(present),
                          "target": target, "exclude": excl, "exclude_on_command_line": excl_form[0] if excl_form else None, "exclude_file_text": excl_form[1] if excl_form else None,
                          "package_sets": {"disabled": set_form[0], "enabled": set_form[1], "content": {k: [str(a) for a in v] for k, v in set_atoms.items()}} if set_form else None,
                          "installed_opt": opt_i, "exists_opt": opt_e, "fetch_restricted_opt": opt_f, "size_below": size}
@@ -190,11 +205,11 @@ def enum_cleaning(seed):
                                          or any(_stem(f) == _stem(g) for p in matched for g in p.distfiles)):
                         probs.append(f"{f} would be removed although it has nothing to do with what the targets select (target {target!r}, package sets {set_form})")
                 if probs and len(fails) < 5:
-                    fails.append({"model": model, "detail": f"pclean dist target={target} -I={opt_i} -E={opt_e} -f={opt_f} exclude={excl} sets={set_form} size<{size}: " + "; ".join(probs[:3]) + f"; tree {model['tree']}"})
+                    fails.append({"model": model, "detail": f"pclean dist target={target} -I={opt_i} -E={opt_e} -f={opt_f} exclude={excl} sets={set_form} size<{size}" + (f" (the domain hides {masked})" if masked else "") + ": " + "; ".join(probs[:3]) + f"; tree {model['tree']}"})
             shutil.rmtree(distdir, ignore_errors=True)
     finally:
         shutil.rmtree(scratch, ignore_errors=True)
-    return {"name": "C46.dist_cleaning.bounded_enumeration", "bound": f"{60 if thorough else 20} seeded universes (4..6 packages incl. name-colliding foo / foo-bin / libfoo, fetch-restricted packages, installed sets, stray and outdated files) x "
+    return {"name": "C46.dist_cleaning.bounded_enumeration", "bound": f"{60 if thorough else 20} seeded universes (4..6 packages incl. name-colliding foo / foo-bin / libfoo, fetch-restricted packages, installed sets, stray and outdated files; every third one read through a domain whose visibility filter hides 1..2 packages) x "
             "4 targets x 13 exclusion / package-set forms (no exclusion, -x, an -X file of one or two lines, both; -S with an empty, a one-member, a disabled set and a mix; through pclean's own parse hooks) x 8 combinations of -I -E -f x 2 size filters; removal list compared with the keep rules", "cases": cases, "failures": fails}
 
 
